@@ -708,6 +708,17 @@ where
                 &mut notify_change,
             )?;
 
+            // The resumption records of a fabric the rollback dropped go with it
+            #[cfg(feature = "case-resumption")]
+            if let Some(fab_idx) = removed_fabric {
+                state.resumption.remove_for_fabric(fab_idx);
+                self.matter.transport().notify_resumption_dirty();
+            }
+
+            if removed_fabric.is_some() {
+                self.matter.transport().notify_session_removed();
+            }
+
             // Close the commissioning window on timeout
             state
                 .pase
